@@ -591,6 +591,22 @@ func checkNoSharedState(c *Check, rule string) {
 			return true
 		})
 	}
+	// append writes into the spare capacity of its first operand's backing array: appending to a
+	// slice that was not allocated by the appending function (a field of a certificate, of a CRL
+	// bundle handed out by the fetcher or cache, of a result another goroutine may hold) is a write
+	// into memory that concurrent checks share
+	var abad []string
+	nap := 0
+	for _, fs := range c.P.productFuncs() {
+		rel := strings.TrimPrefix(fs.Pkg.PkgPath, c.P.ModPath)
+		if !strings.HasPrefix(rel, "/revocation") {
+			continue
+		}
+		ab, n := appendAliasing(c, fs)
+		nap += n
+		abad = append(abad, ab...)
+	}
+	c.add(rule, "append only to slices allocated by the appending function (revocation packages)", "every append in the revocation packages grows a slice whose backing array was allocated in the same function (nil, make, literal, or a result of such an append), or one that the function alone owns: appending to a slice read from a certificate, a CRL bundle or another shared object writes into its spare capacity, which concurrent checks share ("+fmt.Sprint(nap)+" append sites)", len(abad) == 0, "", abad...)
 	c.add(rule, "no shared mutable state in the revocation packages", "no function of the revocation packages assigns a package-level variable or a field of its receiver (the packages are stateless between calls; results depend only on arguments and server answers)", len(bad) == 0 && nfn > 20, "", bad...)
 	c.floor("revocation functions scanned for shared state", 20, nfn)
 }
